@@ -69,6 +69,22 @@ def _mods():
     return [T, F, A]
 
 
+# Function.get_sql forwards these keyword arguments of the enclosing call to get_function_sql, i.e. to the arguments,
+# criteria and window terms; "rendered alone under the same keyword arguments" therefore includes them
+_FORWARDED = ("secondary_quote_char", "alias_quote_char", "query_alias_quote_char", "as_keyword", "groupby_alias")
+_KWX = {}
+
+
+def _kw():
+    return dict(KW, **_KWX)
+
+
+def _set_case_kw(case):
+    """component texts of a case are rendered under the forwarded part of the case's own get_sql keyword arguments"""
+    global _KWX
+    _KWX = {} if case is None else {k: v for k, v in render_kwargs(case).items() if k in _FORWARDED}
+
+
 def discover():
     """[(module name, class name, class)] for every Function subclass defined in the three modules."""
     from pypika.terms import Function
@@ -128,7 +144,7 @@ def probe_marker(kind, k):
 def term_text(t):
     """An argument's own text, rendered alone exactly as Function.get_function_sql renders it."""
     if hasattr(t, "get_sql"):
-        return t.get_sql(with_alias=False, subquery=True, **KW)
+        return t.get_sql(with_alias=False, subquery=True, **_kw())
     return str(t)
 
 
@@ -156,6 +172,7 @@ def probe_once(mod, cls, named, kinds):
     values = [probe_value(kd, k) for k, kd in enumerate(kinds)]
     texts = [probe_text(kd, k) for k, kd in enumerate(kinds)]
     marks = [probe_marker(kd, k) for k, kd in enumerate(kinds)]
+    _set_case_kw(None)
     try:
         if cls == "CustomFunction":
             w = construct(mod, cls, ["GENFN", ["p%d" % i for i in range(n)]], values)
@@ -375,9 +392,9 @@ def arg_alone_text(spec):
     from pypika.terms import Term, Star
     v, kind = arg_value(spec)
     if spec[0] == "star":
-        return Star().get_sql(with_alias=False, subquery=True, **KW)
+        return Star().get_sql(with_alias=False, subquery=True, **_kw())
     if spec[0] == "sqltype":
-        return v.get_sql(**KW)
+        return v.get_sql(**_kw())
     if kind == "PTerm":
         return term_text(Term.wrap_constant(v))
     if kind == "PWord":
@@ -417,7 +434,7 @@ def crit_is_empty(i):
 
 def crit_text(i):
     """the criterion rendered alone (not as a sub-criterion)"""
-    return None if crit_is_empty(i) else crit_obj(i).get_sql(**KW)
+    return None if crit_is_empty(i) else crit_obj(i).get_sql(**_kw())
 
 
 def crit_needs_brackets(i):
@@ -450,7 +467,7 @@ def win_term(spec):
 
 
 def win_text(spec):
-    return win_term(spec).get_sql(**KW)
+    return win_term(spec).get_sql(**_kw())
 
 
 def bound_value(b):
@@ -516,6 +533,8 @@ def render_kwargs(case):
         kw["as_keyword"] = True
     if ro.get("alias_quote"):
         kw["alias_quote_char"] = ro["alias_quote"]
+    if ro.get("secondary_quote"):
+        kw["secondary_quote_char"] = ro["secondary_quote"]
     return kw
 
 
@@ -561,6 +580,8 @@ def op_coq(op):
 def to_coq(case, outcome):
     if "harness_exc" in outcome:
         return None
+    catalogue()
+    _set_case_kw(case)
     kinds = [arg_value(s)[1] for s in case["args"]]
     if any(kd not in KINDS for kd in kinds):
         return None                       # lower-case type words: outside the catalogue's sentinel kinds
@@ -708,6 +729,8 @@ def wrapper_cases(rng, tier):
                             c["ro"]["alias_quote"] = "`"
                     else:
                         c["ro"] = {"with_alias": rng.random() < 0.5}
+                    if rng.random() < 0.1:
+                        c["ro"]["secondary_quote"] = "`"      # forwarded to the arguments: string literals are quoted with it
                     if flags.get("schema"):
                         c["schema"] = rng.choice(["sc", "my schema"])
                     out.append(c)
@@ -1126,6 +1149,8 @@ def oracle(case, outcome):
     text = outcome["text"]
     cls = case["cls"]
     V = []
+    catalogue()
+    _set_case_kw(case)
 
     def viol(clause, what, msg, owner=None):
         V.append({"signature": ["C18", owner or cls, clause, what], "what": "%s.%s: %s; text=%r" % (case["mod"], cls, msg, text)})
